@@ -31,3 +31,20 @@ class CyclePen:
 def draw_cycles(glyphset, name):
     pen = CyclePen(glyphset); glyphset[name].draw(pen); pen._flush(False)
     return pen.contours
+
+
+def charstring_width(ttfont, name):
+    """advance width as encoded in a CFF1 charstring (nominalWidthX + operand, or defaultWidthX)"""
+    td = ttfont["CFF "].cff.topDictIndex[0]
+    cs = td.CharStrings[name]
+
+    class _Null:
+        def moveTo(self, *a): pass
+        def lineTo(self, *a): pass
+        def curveTo(self, *a): pass
+        def qCurveTo(self, *a): pass
+        def closePath(self): pass
+        def endPath(self): pass
+
+    cs.draw(_Null())
+    return cs.width
